@@ -630,6 +630,14 @@ func (w *World) followShadow(rec *BlockRec) {
 		switch m.(type) {
 		case *monC07, *monC08, *monC09:
 			m.AfterBlock(wb)
+		case *monC04:
+			if w.PropOverride == "C04" {
+				m.AfterBlock(wb)
+			}
+		case *monC03:
+			if w.PropOverride == "C03" {
+				shadowOrders(w, wb)
+			}
 		}
 	}
 	for _, v := range wb.Viol {
